@@ -58,7 +58,7 @@ def run_and_judge(ctx, jobs, own_prefixes, nontrivial_fn, known_key_fn=None, sea
 
 
 # which design of spec/ChanLife.tla the tree under test implements ("1": a sendonly channel announces its close)
-CHANLIFE_FIXED = "0"
+CHANLIFE_FIXED = "1"
 
 
 def chanlife_part(ctx, own_prefixes, depth, known_key_fn=None):
